@@ -66,6 +66,9 @@ func contractProps(c *FuncContract) []string {
 }
 
 // oblProps decides which properties an obligation serves.
+// verifRoot is the /verif directory (bounded stand-ins, stubs); the output directory of a check may differ.
+var verifRoot string
+
 func oblProps(w *World, o *Obl) []string {
 	if ps := labelProps(o.Label); len(ps) > 0 {
 		if o.Kind == "decreases" {
@@ -382,6 +385,7 @@ func cmdCheck(args []string) int {
 	}
 	solveS := time.Since(t0).Seconds()
 	exit := 0
+	verifRoot = *verif
 	if *outDir == "" {
 		*outDir = *verif
 	}
@@ -513,7 +517,7 @@ func checkProperty(rc *runCtx, p, tier string, seed int, verif string, bl Baseli
 		}
 	}
 	// bounded stand-ins for functions outside the subset (never counted as proved)
-	bres := runBounded(rc.w.repo, verif, p)
+	bres := runBounded(rc.w.repo, verifRoot, p)
 	for _, br := range bres {
 		if br.Status != "bounded-pass" {
 			path := filepath.Join(verif, "replay", "bounded_"+p+"_"+br.Name+".json")
